@@ -39,7 +39,7 @@ def main():
         det = {}
         ids = [f"C{i:02d}" for i in range(1, 21)]
         for cid in ids:
-            p = subprocess.run(["/verif/bin/crscheck", "-property", cid, "-repo", wt], stdout=subprocess.PIPE, stderr=subprocess.STDOUT, env=ENV)
+            p = subprocess.run([os.environ.get("CRS_BIN", "/verif/bin/crscheck"), "-property", cid, "-repo", wt], stdout=subprocess.PIPE, stderr=subprocess.STDOUT, env=ENV)
             if p.returncode == 1:
                 lines = [l for l in p.stdout.decode().splitlines() if "] " in l and " — " in l]
                 det[cid] = [l.split("] ", 1)[0].split("[")[-1] + ":" + l.split("] ", 1)[1].split(" — ")[0] for l in lines][:6]
